@@ -106,7 +106,66 @@ type World struct {
 	AfterBegin func(ctx sdk.Context)
 	realTime   time.Time
 	KV   []*storetypes.KVStoreKey // sorted by name
+	real *realDriver              // set in RealMode: the world is inside a real FinalizeBlock
 }
+
+// RealMode makes every world built from now on live inside real blocks: Root is the context of block 2 handed out
+// by a hook right after the real begin-blocker while FinalizeBlock waits, and NextBlock ends that block for real
+// (EndBlocker inside FinalizeBlock, Commit) and starts the next one. The conformance replayer runs the same op
+// sequences in both modes and compares the stores, which is how the block-boundary emulation and the "handler on a
+// store branch" shortcut are bound to the real ABCI path.
+var RealMode bool
+
+type realDriver struct {
+	ctxCh   chan sdk.Context
+	release chan struct{}
+	done    chan error
+}
+
+// startRealBlock starts FinalizeBlock of the next height in a goroutine and returns the block's context as soon as
+// the begin-blocker has run; the goroutine then waits until endRealBlock.
+func (w *World) startRealBlock(dt time.Duration) (sdk.Context, error) {
+	d := &realDriver{ctxCh: make(chan sdk.Context, 1), release: make(chan struct{}), done: make(chan error, 1)}
+	w.real = d
+	go func() {
+		defer func() {
+			if r := recover(); r != nil {
+				d.done <- fmt.Errorf("panic in real block: %v\n%s", r, shortStack())
+				select {
+				case d.ctxCh <- sdk.Context{}:
+				default:
+				}
+			}
+		}()
+		_, err := w.RealBlock(func(ctx sdk.Context) {
+			d.ctxCh <- ctx
+			<-d.release
+		}, nil, dt)
+		d.done <- err
+	}()
+	select {
+	case ctx := <-d.ctxCh:
+		return ctx.WithEventManager(sdk.NewEventManager()), nil
+	case err := <-d.done:
+		return sdk.Context{}, err
+	}
+}
+
+func (w *World) endRealBlock() error {
+	d := w.real
+	if d == nil {
+		return nil
+	}
+	close(d.release)
+	w.real = nil
+	return <-d.done
+}
+
+// Finish ends the real block a RealMode world is in (no-op otherwise).
+func (w *World) Finish() error { return w.endRealBlock() }
+
+var _ = 0
+
 
 var configured bool
 
@@ -269,6 +328,16 @@ func New(cfg Config) *World {
 	if _, err := w.RealBlock(nil, nil, 0); err != nil {
 		panic(err)
 	}
+	for _, k := range a.GetKVStoreKey() {
+		w.KV = append(w.KV, k)
+	}
+	sort.Slice(w.KV, func(i, j int) bool { return w.KV[i].Name() < w.KV[j].Name() })
+	if RealMode {
+		ctx, err := w.startRealBlock(BlockTime)
+		must(err)
+		w.Root = ctx
+		return w
+	}
 	// the exploration root: a branch of the committed state, inside block 2 right after its begin-blocker
 	hdr := tmproto.Header{ChainID: ChainID, Height: 2, Time: GenesisTime.Add(BlockTime), ProposerAddress: w.Vals[0].ConsAddr()}
 	ctx := sdk.NewContext(w.memCopy(), hdr, false, log.NewNopLogger())
@@ -278,11 +347,6 @@ func New(cfg Config) *World {
 	_, err = a.BeginBlocker(ctx)
 	must(err)
 	w.Root = ctx.WithEventManager(sdk.NewEventManager())
-
-	for _, k := range a.GetKVStoreKey() {
-		w.KV = append(w.KV, k)
-	}
-	sort.Slice(w.KV, func(i, j int) bool { return w.KV[i].Name() < w.KV[j].Name() })
 	return w
 }
 
@@ -405,6 +469,18 @@ type BlockResult struct {
 // real PreBlocker + BeginBlocker. Returns the context of the next block.
 func (w *World) NextBlock(ctx sdk.Context, dt time.Duration) (next sdk.Context, res BlockResult) {
 	next = ctx
+	if w.real != nil {
+		if err := w.endRealBlock(); err != nil {
+			res.Err = fmt.Errorf("real block: %w", err)
+			return next, res
+		}
+		n, err := w.startRealBlock(dt)
+		if err != nil {
+			res.Err = fmt.Errorf("real block: %w", err)
+			return next, res
+		}
+		return n, res
+	}
 	func() {
 		defer func() {
 			if r := recover(); r != nil {
